@@ -106,4 +106,19 @@ CHECKS['C16'] = {
     'technique': 'symbolic type sets through the real constructors/cast/but (z3 validity per path) + snapshot comparison of API call sequences',
 }
 
+CHECKS['C03'] = {
+    'engine': 'SF+walker', 'category': 'other', 'design_ref': 'DESIGN.md 1 (SF), 3.2, 4 (C03)',
+    'text': ('SF: every construction form (113: operators, sets, ranges, accesses, quantifiers, 27 functions; constructor and parser-callback routes) runs on children with symbolic 7-bit type sets; z3 decides '
+             'for ALL type sets that results carry the declared type and stored children carry exactly child /\\ parameter. An independent walker checks the full invariant list on every AST returned by parsing, by each rewriting function and by compositions of two.'),
+    'note': 'Trusted: z3, vf/sf.py explorer, the re-stated signature table in vf/symtypes.py. Whole-tree invariants are checked by concrete walking of real outputs (bounded families).',
+    'technique': 'symbolic type sets through the real constructors (z3 validity per path) + invariant walker on real outputs',
+}
+CHECKS['C05'] = {
+    'engine': 'SF+injection', 'category': 'other', 'design_ref': 'DESIGN.md 1 (SF), 4 (C05)',
+    'text': ('SF: for ALL child type sets of every construction form, construction succeeds only if every child is compatible with its parameter type, and raises only TypeError. '
+             'Exhaustive single-clash injection at every argument position of the enumerated trees, through the callbacks and the real text parser, must raise TypeError.'),
+    'note': 'Trusted: z3, vf/sf.py explorer, the re-stated signature table. Injection positions are enumerated; the clash table is finite.',
+    'technique': 'symbolic type sets through the real constructors (z3 validity per path) + exhaustive clash injection',
+}
+
 NOT_APPLICABLE = {}
